@@ -9,6 +9,7 @@ import (
 	stdxml "encoding/xml"
 	"fmt"
 	"io"
+	"regexp"
 	"strconv"
 	"strings"
 )
@@ -96,7 +97,15 @@ func Tokenize(s string) ([]Item, error) {
 			items = append(items, Item{Kind: PI, Name: body[:k], Raw: body[k:]})
 			i += 2 + j + 2
 		case strings.HasPrefix(s[i:], "<!"):
-			// DOCTYPE with optional internal subset
+			// DOCTYPE with optional internal subset: only `<!DOCTYPE`, only before the root element
+			if !strings.HasPrefix(s[i:], "<!DOCTYPE") {
+				return nil, fmt.Errorf("markup declaration that is neither a comment, a CDATA section nor a DOCTYPE at %d", i)
+			}
+			for _, it := range items {
+				if it.Kind == Start || it.Kind == Empty || it.Kind == Doctype {
+					return nil, fmt.Errorf("DOCTYPE after the root element started (or a second one) at %d", i)
+				}
+			}
 			j := i + 2
 			depth := 0
 			for j < len(s) {
@@ -569,4 +578,76 @@ func Compare(in, out string, keepWS bool, entities map[string]string) (kind, wha
 		}
 	}
 	return "", ""
+}
+
+var entityDecl = regexp.MustCompile(`<!ENTITY\s+([^\s%]+)\s`)
+var namedRef = regexp.MustCompile(`&([^#;&\s][^;&\s]*);`)
+
+// UndeclaredEntity returns the first reference to a general entity that is neither predefined
+// nor declared in the internal subset. A document whose DOCTYPE names an external subset may
+// declare entities there, so nothing is reported for it.
+func UndeclaredEntity(s string) string {
+	declared := map[string]bool{"lt": true, "gt": true, "amp": true, "apos": true, "quot": true}
+	items, err := Tokenize(s)
+	if err != nil {
+		return ""
+	}
+	for _, it := range items {
+		if it.Kind == Doctype {
+			head := it.Raw
+			if k := strings.IndexByte(head, '['); k >= 0 {
+				head = head[:k]
+			}
+			if strings.Contains(head, "SYSTEM") || strings.Contains(head, "PUBLIC") {
+				return ""
+			}
+			for _, m := range entityDecl.FindAllStringSubmatch(it.Raw, -1) {
+				declared[m[1]] = true
+			}
+		}
+	}
+	check := func(raw string) string {
+		for _, m := range namedRef.FindAllStringSubmatch(raw, -1) {
+			if !declared[m[1]] {
+				return m[1]
+			}
+		}
+		return ""
+	}
+	for _, it := range items {
+		switch it.Kind {
+		case Text:
+			if n := check(it.Raw); n != "" {
+				return n
+			}
+		case Start, Empty:
+			for _, a := range it.Attrs {
+				if n := check(a.Raw); n != "" {
+					return n
+				}
+			}
+		}
+	}
+	return ""
+}
+
+var numCharRef = regexp.MustCompile(`&#(x[0-9a-fA-F]+|[0-9]+);`)
+
+// IllegalCharRef returns the first numeric character reference that does not denote a legal
+// XML character (production Char: no U+0000, no other C0 controls, no surrogates, ...).
+func IllegalCharRef(s string) string {
+	for _, m := range numCharRef.FindAllStringSubmatch(s, -1) {
+		var v uint64
+		var err error
+		if m[1][0] == 'x' {
+			v, err = strconv.ParseUint(m[1][1:], 16, 32)
+		} else {
+			v, err = strconv.ParseUint(m[1], 10, 32)
+		}
+		ok := err == nil && (v == 0x9 || v == 0xA || v == 0xD || v >= 0x20 && v <= 0xD7FF || v >= 0xE000 && v <= 0xFFFD || v >= 0x10000 && v <= 0x10FFFF)
+		if !ok {
+			return m[0]
+		}
+	}
+	return ""
 }
